@@ -9,7 +9,7 @@ package options
 //@ stable Cookie.*
 
 // reverse-proxy mode is fixed when the options are loaded
-//@ stable Options.ReverseProxy
+//@ stable Options.ReverseProxy Options.SkipJwtBearerTokens Options.Cookie Options.HtpasswdUserGroups Options.LegacyPreferEmailToUser
 
 //@ prop C16
 //@ scan[real-client-ip-parser-writers] field-writers Options.realClientIPParser pkg/apis/options.(*Options).SetRealClientIPParser
